@@ -477,6 +477,8 @@ func mkTx(nonce uint64) types.Tx {
 
 // ---- reference predicate (independent of consensus/validation.go) ----
 
+const recoverWhy = "recover flag set while the chain is not in recover mode"
+
 func refValid(w *world, b *types.Block) (ok bool, why string) {
 	st := w.status()
 	defer func() {
@@ -499,7 +501,13 @@ func refValid(w *world, b *types.Block) (ok bool, why string) {
 	if b.NumTxs != uint64(len(b.Data.Txs)) || b.TotalTxs != st.LastBlockTotalTx+uint64(len(b.Data.Txs)) {
 		return false, "transaction totals"
 	}
-	if b.Recover < 1 && !bytes.Equal(b.ValidatorsHash.Bytes(), st.Validators.Hash()) {
+	// Recover mode is never entered in this check (the node's own recover count is 0 throughout): a block that claims a
+	// recover round is not a block of this chain state, whatever else it carries. (validateBlock itself waives the
+	// validators-hash comparison for such blocks; what keeps them out is the recover-count guard at reassembly.)
+	if b.Recover != 0 {
+		return false, recoverWhy
+	}
+	if !bytes.Equal(b.ValidatorsHash.Bytes(), st.Validators.Hash()) {
 		return false, "validators hash"
 	}
 	if !bytes.Equal(b.ConsensusHash.Bytes(), st.ConsensusParams.Hash()) {
@@ -696,7 +704,9 @@ func runCase(f *csnet.Fixture, self int, h uint64, r, pol int, seen bool, cors [
 		}
 		res.viol = [2]string{"prevote-for-invalid-block:" + names[0], fmt.Sprintf("h%d r%d: the correct node prevotes a block with [%s] that fails full validation (%s)", h, r, tag, why)}
 	}
-	if res.refOK != res.repoOK {
+	// (a recover-flagged block is kept out by the recover-count guard at reassembly, not by ValidateBlock: the two oracles
+	// differ there by construction)
+	if res.refOK != res.repoOK && res.refWhy != recoverWhy {
 		res.note = fmt.Sprintf("oracle-disagreement [%s]: independent predicate valid=%v (%s), ValidateBlock valid=%v (%s)", tag, res.refOK, res.refWhy, res.repoOK, res.repoWhy)
 	}
 	if !res.prevoted {
